@@ -505,7 +505,7 @@ package mcp
 //@ func httpServerHandler.handlePostRequest
 //@   requires status(w) == 0
 //@   before call (net/http.Header).Set#1 assert[C04 session-header-only-in-stateful-mode] !h.isStateless
-//@   modifies *, status(w), hval, handled, lastres, lasterr, cancels
+//@   modifies *, status(w), hval, handled, lastres, lasterr, cancels, gens, lastgen, lastgenw
 //@   ensures[C03,C06] status(w) != 0
 //@ func httpServerHandler.handlePostNotification
 //@   requires status(w) == 0
